@@ -277,7 +277,7 @@ def findings(job, line):
     mx = int(d['max']) if 'max' in d else 300
     errs += refcheck.check_all(o, P, unsafe=uns, ext=d.get('ext') == '1', buffer=d.get('buffer') == '1',
                                min_ops=mn, max_ops=mx)
-    if state is not None and not uns and not any(e.startswith(('C01', 'C04', 'C09')) for e in errs):
+    if state is not None and not uns and not any(e.startswith(('C01', 'C04', 'C09')) and not e.startswith('C01 dis:') for e in errs):
         # C17 (end state only; the per-step statement is the proof's business): the simulated machine the
         # generator is left with vs. the reference machine run on the returned bytes up to (not including) STOP
         ops, derr = refcheck.decode(o)
